@@ -333,22 +333,25 @@ Commit(t) ==
   /\ nops' = IF MaxOps = 0 THEN 0 ELSE nops + 1
   /\ path' = Append(path, Cmd(last'))
 
+(* HT_DISABLE_<op>: the check is re-run without a call that violated an
+   invariant, to look for violations that do not need this call *)
+On(op) == ~(("HT_DISABLE_" \o op) \in DOMAIN IOEnv)
 Live(t) == ~tabs[t].hung
 
-DoNew(t, c)       == Live(t) /\ last' = WithChg(OpNew(t, c), tabs[t]) /\ Commit(t)
-DoInsert(t, k, v) == Live(t) /\ last' = WithChg(OpInsert(tabs[t], t, k, v), tabs[t]) /\ Commit(t)
-DoFind(t, k)      == Live(t) /\ last' = WithChg(OpFind(tabs[t], t, k, "find"), tabs[t]) /\ Commit(t)
-DoGet(t, k)       == Live(t) /\ last' = WithChg(OpFind(tabs[t], t, k, "get"), tabs[t]) /\ Commit(t)
-DoRemove(t, k)    == Live(t) /\ last' = WithChg(OpRemove(tabs[t], t, k), tabs[t]) /\ Commit(t)
-DoRetain(t, P)    == Live(t) /\ last' = WithChg(OpRetain(tabs[t], t, P), tabs[t]) /\ Commit(t)
-DoDrain(t)        == Live(t) /\ last' = WithChg(OpDrain(tabs[t], t), tabs[t]) /\ Commit(t)
-DoIntoIter(t)     == Live(t) /\ last' = WithChg(OpIntoIter(tabs[t], t), tabs[t]) /\ Commit(t)
-DoIter(t)         == Live(t) /\ last' = WithChg(OpIter(tabs[t], t), tabs[t]) /\ Commit(t)
-DoLen(t)          == Live(t) /\ last' = WithChg(OpLen(tabs[t], t), tabs[t]) /\ Commit(t)
-DoClear(t)        == Live(t) /\ last' = WithChg(OpClear(tabs[t], t), tabs[t]) /\ Commit(t)
-DoReserve(t, n)   == Live(t) /\ last' = WithChg(OpReserve(tabs[t], t, n), tabs[t]) /\ Commit(t)
+DoNew(t, c)       == On("new") /\ Live(t) /\ last' = WithChg(OpNew(t, c), tabs[t]) /\ Commit(t)
+DoInsert(t, k, v) == On("insert") /\ Live(t) /\ last' = WithChg(OpInsert(tabs[t], t, k, v), tabs[t]) /\ Commit(t)
+DoFind(t, k)      == On("find") /\ Live(t) /\ last' = WithChg(OpFind(tabs[t], t, k, "find"), tabs[t]) /\ Commit(t)
+DoGet(t, k)       == On("get") /\ Live(t) /\ last' = WithChg(OpFind(tabs[t], t, k, "get"), tabs[t]) /\ Commit(t)
+DoRemove(t, k)    == On("remove") /\ Live(t) /\ last' = WithChg(OpRemove(tabs[t], t, k), tabs[t]) /\ Commit(t)
+DoRetain(t, P)    == On("retain") /\ Live(t) /\ last' = WithChg(OpRetain(tabs[t], t, P), tabs[t]) /\ Commit(t)
+DoDrain(t)        == On("drain") /\ Live(t) /\ last' = WithChg(OpDrain(tabs[t], t), tabs[t]) /\ Commit(t)
+DoIntoIter(t)     == On("into_iter") /\ Live(t) /\ last' = WithChg(OpIntoIter(tabs[t], t), tabs[t]) /\ Commit(t)
+DoIter(t)         == On("iter") /\ Live(t) /\ last' = WithChg(OpIter(tabs[t], t), tabs[t]) /\ Commit(t)
+DoLen(t)          == On("len") /\ Live(t) /\ last' = WithChg(OpLen(tabs[t], t), tabs[t]) /\ Commit(t)
+DoClear(t)        == On("clear") /\ Live(t) /\ last' = WithChg(OpClear(tabs[t], t), tabs[t]) /\ Commit(t)
+DoReserve(t, n)   == On("reserve") /\ Live(t) /\ last' = WithChg(OpReserve(tabs[t], t, n), tabs[t]) /\ Commit(t)
 DoClone(t, u) ==
-  /\ t # u /\ Live(t) /\ Live(u)
+  /\ On("clone") /\ t # u /\ Live(t) /\ Live(u)
   /\ last' = WithChg(OpClone(tabs[t], t, u), tabs[u])
   /\ Commit(u)
 
@@ -373,7 +376,25 @@ Bound == MaxOps = 0 \/ nops <= MaxOps
 
 Abs(tb) == {El(tb.data[i]) : i \in {j \in 1 .. Cap(tb) : tb.data[j].st = 2}}
 A == INSTANCE HashTbl WITH set <- [t \in Tab |-> Abs(tabs[t])], last <- last.ev
-Refines == A!ASpec
+(* A!ANext with the witnesses taken from the call record (equivalent to
+   checking A!ASpec, but TLC need not search for the abstract action) *)
+RefStep ==
+  LET e == last'.ev IN
+  CASE e.op = "new"       -> e.n \in ResArgs /\ A!ANew(e.t, e.n)
+    [] e.op = "insert"    -> A!AInsert(e.t, e.k, e.v)
+    [] e.op = "find"      -> A!AFind(e.t, e.k)
+    [] e.op = "get"       -> A!AGet(e.t, e.k)
+    [] e.op = "remove"    -> A!ARemove(e.t, e.k)
+    [] e.op = "retain"    -> A!ARetain(e.t, e.p)
+    [] e.op = "drain"     -> A!ADrain(e.t)
+    [] e.op = "into_iter" -> A!AIntoIter(e.t)
+    [] e.op = "iter"      -> A!AIter(e.t)
+    [] e.op = "len"       -> A!ALen(e.t)
+    [] e.op = "clear"     -> A!AClear(e.t)
+    [] e.op = "reserve"   -> e.n \in ResArgs /\ A!AReserve(e.t, e.n)
+    [] e.op = "clone"     -> A!AClone(e.t, e.u)
+    [] OTHER              -> FALSE
+Refines == A!AInit /\ [][SkipInv("Refines") \/ RefStep]_vars
 
 ----------------------------------------------------------------------------
 (* invariants *)
